@@ -34,7 +34,11 @@ func GenLockScript(r *Rng, hist map[string]int) []string {
 				add("probeclose")
 				hist["lock_probe_close"]++
 			}
-			if c.io == 0 && r.Chance(1, 3) {
+			if r.Chance(1, 4) {
+				// an opener caught between opening the lock file and locking it, overtaken by Close
+				add("lockprobe %s", genCfg(r, o2, hist))
+				hist["lock_opener_overtaken_by_close"]++
+			} else if c.io == 0 && r.Chance(1, 3) {
 				// a Close that reports an I/O error (one data file cannot be synced) releases the lock all the same
 				add("closefail %d", r.Intn(8))
 				hist["lock_close_with_io_error"]++
@@ -79,6 +83,17 @@ func GenLockScript(r *Rng, hist map[string]int) []string {
 	}
 	add("dump")
 	add("files")
+	if r.Chance(1, 6) {
+		// Close while the engine's background merge goroutine is inside a Merge
+		add("probeclose")
+		add("close")
+		cb := genCfg(r, o2, hist)
+		cb.fsize = r.Pick(4096, 40960)
+		cb.sync = 0 // the background goroutine starts a merge when bytesWrite changed since its last look
+		add("closebg %s", cb)
+		hist["lock_close_during_background_merge"]++
+		return out
+	}
 	if c.io == 0 && r.Chance(1, 2) {
 		add("closefail %d", r.Intn(8))
 		hist["lock_close_with_io_error"]++
